@@ -54,6 +54,91 @@ type c16In struct {
 	Stress int     `json:"stress,omitempty"`  // produce: repeat the call this many times concurrently; any run that differs is the observable
 	Chunk  int     `json:"chunk,omitempty"`   // reader / WriterTo hands the text over in pieces of this size (0 = at once)
 	Calls  []c16In `json:"calls,omitempty"`   // hist: the calls made through ONE consumer value and ONE producer value built with Opts
+	Had    *c16Had `json:"had,omitempty"`     // what the caller's own *csv.Reader (source csvreader) / *csv.Writer (destination csvwriter) was set to BEFORE the call
+}
+
+// c16Had: the state a caller-supplied *csv.Reader / *csv.Writer carries from an earlier use. It is independent of the
+// option set of the codec; the option set decides what the call delivers (flags are taken as given, a separator /
+// comment rune / field count given in the option set replaces the one the reader or writer had).
+type c16Had struct {
+	Lazy    bool `json:"lazy,omitempty"`
+	Trim    bool `json:"trim,omitempty"`
+	Reuse   bool `json:"reuse,omitempty"`
+	Comma   int  `json:"comma,omitempty"`
+	Comment int  `json:"comment,omitempty"`
+	FPR     int  `json:"fpr,omitempty"`
+	CRLF    bool `json:"crlf,omitempty"`
+	WComma  int  `json:"wcomma,omitempty"`
+}
+
+func (h *c16Had) reader(r *csv.Reader) {
+	if h == nil {
+		return
+	}
+	r.LazyQuotes, r.TrimLeadingSpace, r.ReuseRecord = h.Lazy, h.Trim, h.Reuse
+	if h.Comma != 0 {
+		r.Comma = rune(h.Comma)
+	}
+	if h.Comment != 0 {
+		r.Comment = rune(h.Comment)
+	}
+	if h.FPR != 0 {
+		r.FieldsPerRecord = h.FPR
+	}
+}
+
+func (h *c16Had) writer(w *csv.Writer) {
+	if h == nil {
+		return
+	}
+	w.UseCRLF = h.CRLF
+	if h.WComma != 0 {
+		w.Comma = rune(h.WComma)
+	}
+}
+
+func (h *c16Had) label() string {
+	var p []string
+	for _, x := range []struct {
+		b bool
+		s string
+	}{{h.Lazy, "lazy"}, {h.Trim, "trim"}, {h.Reuse, "reuse"}, {h.Comma != 0, "comma"}, {h.Comment != 0, "comment"}, {h.FPR != 0, "fpr"}, {h.CRLF, "crlf"}, {h.WComma != 0, "wcomma"}} {
+		if x.b {
+			p = append(p, x.s)
+		}
+	}
+	return "had:" + strings.Join(p, "+")
+}
+
+// c16GenHad: state on the caller's reader / writer, drawn independently of the option set. The flags are free; a
+// separator, comment rune or field count is only pre-set where the option set names its own (a zero in the option set
+// leaves the caller's value in place: noted in notes/C16.md, not judged).
+func c16GenHad(r *rand.Rand, o c16Opts) *c16Had {
+	h := &c16Had{}
+	switch r.Intn(5) {
+	case 0:
+		h.Lazy = true
+	case 1:
+		h.Trim = true
+	case 2:
+		h.Lazy, h.Trim, h.Reuse, h.CRLF = true, true, true, true
+	default:
+		h.Lazy, h.Trim, h.Reuse, h.CRLF = r.Intn(2) == 0, r.Intn(2) == 0, r.Intn(2) == 0, r.Intn(2) == 0
+	}
+	h.CRLF = h.CRLF || r.Intn(3) == 0
+	if o.Comma != 0 && r.Intn(2) == 0 {
+		h.Comma = []int{';', '\t', '|', ','}[r.Intn(4)]
+	}
+	if o.Comment != 0 && r.Intn(2) == 0 {
+		h.Comment = []int{'#', 'a', '/'}[r.Intn(3)]
+	}
+	if o.FPR != 0 && r.Intn(2) == 0 {
+		h.FPR = []int{-1, 1, 2, 3}[r.Intn(4)]
+	}
+	if o.WComma != 0 && r.Intn(2) == 0 {
+		h.WComma = []int{';', '\t', '|'}[r.Intn(3)]
+	}
+	return h
 }
 
 type c16PEntry struct {
@@ -109,7 +194,7 @@ func (c16) Rule() string {
 		"(before an unquoted field, a quoted field, a comment line, nothing), with a truncated / doubled mark, a UTF-16/32 mark, NUL, a lone CR, line ends, non-ASCII blanks; " +
 		"option sets over Comma/Comment/LazyQuotes/TrimLeadingSpace/FieldsPerRecord/ReuseRecord/writer Comma/UseCRLF; skip counts from -1 to n+2 and huge; " +
 		"consume x 8 destination kinds, produce x 8 source kinds (value, pointer), pair x 64 kind pairs; record-table destinations fresh or " +
-		"pre-populated with (len, cap) shorter and longer than the input; typed nil pointers. Non-trivial: the parse yields >= 2 records or an " +
+		"pre-populated with (len, cap) shorter and longer than the input; typed nil pointers; a caller's own *csv.Reader / *csv.Writer arriving with flags (and, where the option set names its own, separator / comment / field count) set from an earlier use. Non-trivial: the parse yields >= 2 records or an " +
 		"error, or the destination is pre-populated or nil, or some option differs from the default."
 }
 
@@ -564,7 +649,9 @@ func c16ConsumeWith(cons runtime.Consumer, in c16In, text string) (c16Step, c16R
 	str := "old"
 	switch in.Dst {
 	case "csvwriter":
-		data = csv.NewWriter(&buf)
+		cw := csv.NewWriter(&buf)
+		in.Had.writer(cw)
+		data = cw
 		if in.Nil {
 			data = (*csv.Writer)(nil)
 		}
@@ -746,7 +833,9 @@ func c16ProduceWith(prod runtime.Producer, in c16In, text string) (c16Step, stri
 	var data any
 	switch in.Src {
 	case "csvreader":
-		data = csv.NewReader(&c16ChunkReader{s: text, chunk: in.Chunk})
+		cr := csv.NewReader(&c16ChunkReader{s: text, chunk: in.Chunk})
+		in.Had.reader(cr)
+		data = cr
 		if in.Nil {
 			data = (*csv.Reader)(nil)
 		}
@@ -1056,6 +1145,9 @@ func c16HistCategory(in c16In, obs c16Obs) (string, bool) {
 			ops = append(ops, "<"+c.Src)
 		}
 		texts[string(c.Text)] = true
+		if c.Had != nil && (c.Src == "csvreader" || c.Dst == "csvwriter") {
+			ops[len(ops)-1] += "(" + c.Had.label() + ")"
+		}
 	}
 	parts = append(parts, strings.Join(ops, ","))
 	if len(texts) > 1 {
@@ -1116,6 +1208,9 @@ func (c16) Category(x any, y any) (string, bool) {
 	}
 	if in.Elem != "" {
 		parts = append(parts, "elem:"+in.Elem)
+	}
+	if in.Had != nil && (in.Src == "csvreader" || in.Dst == "csvwriter") {
+		parts = append(parts, in.Had.label())
 	}
 	var os []string
 	if o.Comma != 0 {
@@ -1428,6 +1523,9 @@ func c16GenHist(r *rand.Rand) c16In {
 			c.Src = c16Srcs[r.Intn(8)]
 			c.Ptr = r.Intn(3) == 0 && (c.Src == "records" || c.Src == "bytes" || c.Src == "string")
 		}
+		if (c.Src == "csvreader" || c.Dst == "csvwriter") && r.Intn(2) == 0 {
+			c.Had = c16GenHad(r, o)
+		}
 		return c
 	}
 	in := c16In{Mode: "hist", Opts: o}
@@ -1499,6 +1597,9 @@ func (c16) Gen(r *rand.Rand, tier string, i int) any {
 	}
 	if ((in.Mode != "produce" && in.Dst == "records") || (in.Mode == "produce" && in.Src == "records")) && in.PreCap == 0 && !in.Ptr && r.Intn(5) == 0 {
 		in.Elem = []string{"named", "mystr", "row"}[r.Intn(3)]
+	}
+	if (in.Src == "csvreader" || in.Dst == "csvwriter") && r.Intn(2) == 0 {
+		in.Had = c16GenHad(r, o)
 	}
 	if in.Mode != "pair" && in.Elem == "" && r.Intn(12) == 0 {
 		nilable := map[string]bool{"csvwriter": true, "records": true, "bytes": true, "string": true, "csvreader": true}
@@ -1574,6 +1675,31 @@ func (c16) Enumerate(tier string) []any {
 				}
 			}
 			hn++
+		}
+	}
+	// a caller's own *csv.Reader / *csv.Writer that carries settings from an earlier use: every flag alone and all together x
+	// option sets that leave the flag off / turn it on / name their own separator, comment rune and field count, on texts where
+	// each flag decides the outcome (misplaced quote, leading blanks, line ends); as single calls, pairs and inside a history
+	// next to the io.Reader source on the same text
+	hadTexts := []string{"a,b\nx\"y,z\n", "a, b\nc,  d\n", "h1,h2\n \"q\",w\nlast,row\n", "a;b\n#c;d\ne;f;g\n"}
+	hads := []c16Had{{Lazy: true}, {Trim: true}, {Reuse: true}, {CRLF: true}, {Lazy: true, Trim: true, Reuse: true, CRLF: true}, {}}
+	hadOpts := []c16Opts{{}, {Skip: 1}, {Lazy: true}, {Trim: true}, {Reuse: true, CRLF: true}, {Comma: ';', Comment: '#', FPR: -1, WComma: '|'}}
+	for hi := range hads {
+		for oi, o := range hadOpts {
+			h := hads[hi]
+			if o.Comma != 0 {
+				h.Comma, h.Comment, h.FPR, h.WComma = '|', 'a', 2, '\t'
+			}
+			for ti, t := range hadTexts {
+				out = append(out, c16In{Mode: "produce", Text: Bs(t), Opts: o, Src: "csvreader", Had: &h, Chunk: (hi + ti) % 3})
+				out = append(out, c16In{Mode: "consume", Text: Bs(t), Opts: o, Dst: "csvwriter", Had: &h})
+				if (hi+oi+ti)%3 == 0 {
+					out = append(out, c16In{Mode: "pair", Text: Bs(t), Opts: o, Src: "csvreader", Dst: c16Dsts[(hi+oi+ti)%8], Had: &h})
+					out = append(out, c16In{Mode: "hist", Opts: o, Calls: []c16In{
+						{Mode: "produce", Text: Bs(t), Src: "csvreader", Had: &h}, {Mode: "produce", Text: Bs(t), Src: "reader"},
+						{Mode: "consume", Text: Bs(t), Dst: "csvwriter", Had: &h}, {Mode: "produce", Text: Bs(t), Src: "csvreader"}}})
+				}
+			}
 		}
 	}
 	for _, e := range []string{"named", "mystr", "row"} {
